@@ -1,6 +1,7 @@
 import Proofs.NumLemmas
 import Proofs.SprintLemmas
 import Proofs.F64Mono
+import Proofs.F64Nearest
 import Proofs.NumZero
 import Proofs.NumRound
 /-!
@@ -65,8 +66,9 @@ example : roundF64 (mkRat 3602879701896397 36028797018963968 * 3) = some (mkRat 
 
 /-! ### What `roundF64` is: correctly rounded, and where it overflows
 
-`roundF64 q = some r` says: `r` is a float64 (`rounds_to_float64`), no float64 lies strictly between `q` and `r`
-(`rounding_faithful`), and a float64 is returned unchanged (the `_spec` theorems: `Representable q` IS
+`roundF64 q = some r` says: `r` is a float64 (`rounds_to_float64`), no float64 is nearer to `q` (`rounding_nearest`;
+which of two equally near ones is taken — the even one — is the definition `roundHalfEven`), none lies strictly between
+`q` and `r` (`rounding_faithful`), and a float64 is returned unchanged (the `_spec` theorems: `Representable q` IS
 `roundF64 q = some q`). It is `none` exactly on overflow: never for `|q| ≤ math.MaxFloat64` (`float_op_in_range`),
 exactly for `|q| ≥ 2^1024 - 2^970` (`float_op_overflow`: there the real code computes ±Inf and prints `+Inf` /
 `-Inf`; the model answers `unmodelled`, which the comparison skips — `arith_overflow_unmodelled`). -/
@@ -77,10 +79,23 @@ theorem rounding_faithful (q r r' : Rat) (h : roundF64 q = some r) (hr' : Repres
     (r' ≤ q → r' ≤ r) ∧ (q ≤ r' → r ≤ r') :=
   ⟨roundF64_ge_of_representable q r r' h hr', roundF64_le_of_representable q r r' h hr'⟩
 
+/-- round to NEAREST: no float64 is nearer to the exact result than the one returned -/
+theorem rounding_nearest (q r r' : Rat) (h : roundF64 q = some r) (hr' : Representable r') :
+    Num.ratAbs (r - q) ≤ Num.ratAbs (r' - q) :=
+  roundF64_nearest q r r' h hr'
+
 theorem float_op_in_range (q : Rat) (h1 : -maxF64 ≤ q) (h2 : q ≤ maxF64) :
     ∃ r, roundF64 q = some r ∧ Representable r ∧ -maxF64 ≤ r ∧ r ≤ maxF64 := by
   obtain ⟨r, e1, e2, e3⟩ := roundF64_no_overflow q h1 h2
   exact ⟨r, e1, roundF64_idem q r e1, e2, e3⟩
+
+/-- 0.1 + 0.2: the exact sum lies half way between the float64s 0.3 and 0.30000000000000004 and goes to the even one -/
+example :
+    let q : Rat := mkRat 3602879701896397 36028797018963968 + mkRat 3602879701896397 18014398509481984
+    let r : Rat := mkRat 1351079888211149 4503599627370496
+    let r' : Rat := mkRat 5404319552844595 18014398509481984
+    roundF64 q = some r ∧ Representable r' ∧ r' ≤ q ∧ Num.ratAbs (r - q) ≤ Num.ratAbs (r' - q) ∧ -maxF64 ≤ q ∧ q ≤ maxF64 := by
+  decide +kernel
 
 theorem float_op_overflow (q : Rat) : roundF64 q = none ↔ (overflowF64 ≤ q ∨ q ≤ -overflowF64) :=
   roundF64_none_iff q
